@@ -34,6 +34,7 @@ type Vector struct {
 	Offset   int     `json:"subj_offset,omitempty"`  // ... starting at Offset
 	Note     string  `json:"note,omitempty"`
 	Layout   string  `json:"layout,omitempty"` // minus-first (default) | plus-first | ctx
+	Header   string  `json:"header,omitempty"` // patch lines (package / import clauses) placed before the pattern
 }
 
 // replaceDots rewrites every "..." that is an elision (not followed by an
@@ -177,6 +178,7 @@ func PatchText(v *Vector) string {
 		fmt.Fprintf(&sb, "var %s %s\n", m.Name, k)
 	}
 	sb.WriteString("@@\n")
+	sb.WriteString(v.Header)
 	minus := strings.Split(PatternText(v.Class, v.Pat), "\n")
 	plus := strings.Split(PatternText(v.Class, v.Plus), "\n")
 	switch v.Layout {
